@@ -49,7 +49,6 @@ THEOREMS = [
     "Klong.C05.system_eq_interp",
     "Klong.C05.top_eq_interp",
     "Klong.C05.params_match_var_syms",
-    "Klong.C05.compile_numpy_total_on_admitted",
     "Klong.C05.pinned_scan_rank2_differs",
     "Klong.C05.pinned_reduce_empty_differs",
     "Klong.C05.pinned_power_kind_differs",
